@@ -285,7 +285,13 @@ def run(ctx):
             if b.meta.get("name") != "decode" or nm not in want:
                 continue
             ctx.saw(b)
-            sw = [sb for sb in range(b.n) if not b.is_cleanup(sb) and b.term(sb)["k"] == "switch" and switch_desc(b, sb).startswith("Shr(BitAnd(get_u64(")]
+            def is_tag(sb):
+                # the operation tag: the top bits of the 64-bit word read from the wire - `(word & MASK) >> SHIFT`, however it travels to the match
+                if (switch_desc(b, sb) or "").startswith("Shr(BitAnd(get_u64("):
+                    return True
+                src_ = b.sources(b.term(sb)["discr"])
+                return ("bin", "Shr") in [x[:2] for x in src_ if x[0] == "bin"] and ("bin", "BitAnd") in [x[:2] for x in src_ if x[0] == "bin"] and any(x[0] == "call" and x[1].name == "get_u64" for x in src_)
+            sw = [sb for sb in range(b.n) if not b.is_cleanup(sb) and b.term(sb)["k"] == "switch" and len(b.term(sb)["arms"]) >= 2 and is_tag(sb)]
             if len(sw) != 1:
                 raise AnchorMissing("%s: switch on the operation tag (found %d)" % (nm, len(sw)))
             t = b.term(sw[0])
